@@ -745,11 +745,11 @@ package participle
 // for the token's own type, each applied once, in registration order, stopping at the first error.
 //@ func Build$1 [C18 C15]
 //@   frame-tags C09
-//@   requires @assumed forall(k, 0, len(mappers[t.Type]), mappers[t.Type][k] != nil) && forall(k, 0, len(mappers[lexer.EOF]), mappers[lexer.EOF][k] != nil)
+//@   requires @assumed forall(k, 0, len(mappers[t.Type]), mappers[t.Type][k] != nil) && forall(k, 0, len(untyped), untyped[k] != nil)
 //@   loop 1 invariant -1 <= rangeindex && rangeindex < len(combined)
-//@   loop 1 invariant len(combined) == len(mappers[lexer.EOF]) + len(mappers[old(t).Type])
-//@   loop 1 invariant forall(k, 0, len(mappers[lexer.EOF]), combined[k] == mappers[lexer.EOF][k])
-//@   loop 1 invariant forall(k, 0, len(mappers[old(t).Type]), combined[len(mappers[lexer.EOF]) + k] == mappers[old(t).Type][k])
+//@   loop 1 invariant len(combined) == len(untyped) + len(mappers[old(t).Type])
+//@   loop 1 invariant forall(k, 0, len(untyped), combined[k] == untyped[k])
+//@   loop 1 invariant forall(k, 0, len(mappers[old(t).Type]), combined[len(untyped) + k] == mappers[old(t).Type][k])
 //@   loop 1 decreases len(combined) - rangeindex
 //@   at return 1: assert result1 == nil && rangeindex + 1 >= len(combined)
 //@   at return 2: assert result1 != nil
